@@ -40,6 +40,7 @@ type Contract struct {
 	Abstracts    []*Clause
 	AtNext       []*Clause // continuation postconditions: must hold at every call of the parameter `next`
 	Invariants   map[int][]*Clause
+	InlineInvs   map[string][]*Clause // "Callee.k" -> invariants of loop k of the inlined callee Callee
 	LoopModifies map[int][]string
 	NoPanic      bool
 	Pure         bool
@@ -373,11 +374,36 @@ func (cs *ContractSet) LoadFile(path, pkg string) error {
 				if len(f2) < 2 {
 					return fmt.Errorf("%s: malformed loop clause", where)
 				}
-				k, err := strconv.Atoi(strings.TrimSuffix(f2[0], ":"))
+				ordTok := strings.TrimSuffix(f2[0], ":")
+				inlineKey := ""
+				if dot := strings.LastIndex(ordTok, "."); dot > 0 {
+					inlineKey = ordTok
+					ordTok = ordTok[dot+1:]
+				}
+				k, err := strconv.Atoi(ordTok)
 				if err != nil {
 					return fmt.Errorf("%s: loop ordinal: %v", where, err)
 				}
 				after := strings.TrimSpace(rest[len(f2[0]):])
+				if inlineKey != "" {
+					if !strings.HasPrefix(after, "invariant") {
+						return fmt.Errorf("%s: loop clause must be an invariant", where)
+					}
+					cl, err := parseClause("invariant", strings.TrimSpace(strings.TrimPrefix(after, "invariant")), where)
+					if err != nil {
+						return err
+					}
+					cl.Loop = k
+					cl.File, cl.Line = path, l.line
+					if cur.InlineInvs == nil {
+						cur.InlineInvs = map[string][]*Clause{}
+					}
+					if cl.Label == "" {
+						cl.Label = strconv.Itoa(len(cur.InlineInvs[inlineKey]))
+					}
+					cur.InlineInvs[inlineKey] = append(cur.InlineInvs[inlineKey], cl)
+					continue
+				}
 				if strings.HasPrefix(after, "invariant") {
 					cl, err := parseClause("invariant", strings.TrimSpace(strings.TrimPrefix(after, "invariant")), where)
 					if err != nil {
